@@ -144,7 +144,9 @@ class Mutator:
                 # Correct logZ for fraction of prior with finite likelihood support
                 n_finite = len(finite_idx)
                 n_total = len(logl)
-                logz = self.state.get_current("logz") + np.log(n_finite / n_total)
+                # (set, not added: at later warm-up iterations the current logz
+                # already estimates this fraction from the earlier batches)
+                logz = np.log(n_finite / n_total)
                 self.state.set_current("logz", logz)
             return
 
